@@ -55,6 +55,17 @@ CLAIMED = {
         note=("Trusted: Coq kernel (closed under the global context); gen_speciesio AST extraction (fail-closed); hand interpreter SpeciesIO.v tied by "
               "running it against real objects; json library modelled as a bijection JSON tree <-> text; NaN excluded; class must match atom count."),
         ref="§3-C16"),
+    "C03": dict(
+        technique="Coq theorem over all finite call histories of a cache state machine whose method bodies are effect summaries regenerated from the source + bit-exact history replay against fresh mixtures",
+        text=("proof (full on the state-machine model): for every finite history of set T / set P / set x0 and the nine public calculate_* calls "
+              "(thermal conductivity with DTterms on or off) on a fresh object, every call terminates, reads only caches computed at the then-current "
+              "inputs, and leaves T as found (invariant: flag set implies both caches current; 90 closed per-method cases by vm_compute, lifted by "
+              "induction over the history); independence of mixtures that share species. Method bodies are effect summaries regenerated from "
+              "mixture.py / functions_transport.py / functions_radiation.py on every run; the tie to real objects is a bit-for-bit comparison with "
+              "freshly constructed mixtures along generated and model-guided histories, incl. shared species and differing solver controls."),
+        note=("Trusted: Coq kernel (closed under the global context); effects.py extraction (fail-closed; loops flattened, solver loops assumed to run "
+              "at least once); determinism of the code (read-only-current-caches => equals fresh mixture), checked bit-for-bit; Cache.v interpreter."),
+        ref="§3-C03"),
 }
 
 NOT_YET = {}
